@@ -74,6 +74,7 @@ def consume(ck, cfg, cases_path, results_path, roots, stats):
                 stats["drift_cases"] += 1
                 if len(stats["drift_samples"]) < 5:
                     stats["drift_samples"].append({"cfg": cfg, "case": json.loads(lc), "drift": r.get("drift")})
+            stats["classes"].update(r.get("classes", []))
             stats["steps"] += r.get("steps", 0)
             stats["checks"] += r.get("checks", 0)
             if r.get("faulty"):
@@ -103,8 +104,8 @@ def trace_leg(ck, binp, tier, stats):
     if not os.path.exists(os.path.join(SPEC, "ExtActionTrace.tla")):
         ck.notes.append("TV leg not built (ExtActionTrace.tla missing)")
         return
-    runs = 3 if tier == "quick" else 40
-    events = 400 if tier == "quick" else 1500
+    runs = 2 if tier == "quick" else 40
+    events = 300 if tier == "quick" else 1500
     nreq = 8 if tier == "quick" else 12
     tpath = os.path.join(WORK, "c17.trace.ndjson")
     out = harness(binp, ["c17", "trace", str(seed()), str(runs), str(events), str(nreq), tpath], timeout=3600, ok_codes=(0, 1))
@@ -114,11 +115,18 @@ def trace_leg(ck, binp, tier, stats):
     for v in summ.get("violations", [])[:5]:
         ck.violation(f"trace:{v['kind']}", v.get("detail", ""), {"trace_seed": seed(), "runs": runs, "events": events, "reqs": nreq, "violation": v})
     nlines = sum(1 for _ in open(tpath))
-    res = tlc("ExtActionTrace", "ExtActionTrace.cfg", workers=1, env={"TRACE": tpath, "NREQ": nreq}, timeout=3600,
-              java_opts="-Xss1g -Dtlc2.tool.queue.IStateQueue=StateDeque", tags=("NONE",), out_name="ExtActionTrace")
-    ck.add_tlc(res)
-    text = open(res.stdout_path).read()
-    if res.postcondition_failed or res.violation or "TRACE-ACCEPTED" not in text:
+    outp = os.path.join(WORK, "tlc_ExtActionTrace.out")
+    res = None
+    try:
+        res = tlc("ExtActionTrace", "ExtActionTrace.cfg", workers=1, env={"TRACE": tpath}, timeout=3600,
+                  java_opts="-Xss1g -Dtlc2.tool.queue.IStateQueue=StateDeque", tags=("NONE",), out_name="ExtActionTrace")
+        ck.add_tlc(res)
+    except ToolError:
+        # a false POSTCONDITION makes TLC exit with 10; that is a rejected trace, not tool trouble
+        if not (os.path.exists(outp) and "TRACE-REJECTED" in open(outp).read()):
+            raise
+    text = open(outp).read()
+    if res is None or res.postcondition_failed or res.violation or "TRACE-ACCEPTED" not in text:
         m = re.search(r'"TRACE-REJECTED", (\d+)', text)
         at = int(m.group(1)) if m else -1
         bad = None
@@ -131,7 +139,7 @@ def trace_leg(ck, binp, tier, stats):
         ck.violation(f"trace_rejected:{(bad or {}).get('event', '?')}",
                      f"ExtActionTrace.tla does not accept the recorded trace at event {at}: {bad}",
                      {"trace_seed": seed(), "runs": runs, "events": events, "reqs": nreq, "at": at, "event": bad,
-                      "tlc": res.error_text[:4000]})
+                      "tlc": (res.error_text if res else text[-4000:])[:4000]})
     else:
         stats["trace_events"] = nlines
         stats["trace_runs"] = runs
@@ -143,7 +151,7 @@ def run(tier, replay=None):
     ck = Check("C17", tier)
     binp = build_harness()
     stats = {"steps": 0, "checks": 0, "faulty": 0, "rejected": 0, "nontrivial": 0, "drift_cases": 0, "drift_samples": [],
-             "violating_cases": 0}
+             "violating_cases": 0, "classes": set()}
     roots = {"by_key": {}, "by_root": {}}
     total = 0
     cfgs = QUICK if tier == "quick" else THOROUGH
@@ -193,6 +201,7 @@ def run(tier, replay=None):
     ck.cov["distinct_root_digests"] = len(roots["by_root"])
     ck.cov["drift_cases"] = stats["drift_cases"]
     ck.cov["per_cfg"] = stats.get("per_cfg", {})
+    ck.cov["result_classes_observed"] = sorted(stats["classes"])
     if "trace_events" in stats:
         ck.cov["trace_events"] = stats["trace_events"]
         ck.cov["trace_runs"] = stats["trace_runs"]
